@@ -444,6 +444,43 @@ def sx_str(x="", *a):
     return str(x, *a)
 
 
+def sx_repr(x):
+    if is_sym(x):
+        return sx_str(x)
+    if not isinstance(x, (str, bytes, int, float, bool, type(None), list, tuple, dict, set, type)):
+        f = next((c.__dict__["__repr__"] for c in type(x).__mro__ if "__repr__" in c.__dict__ and c is not object), None)
+        if f is not None and not isinstance(x, BaseException):
+            r = f(x)
+            if isinstance(r, (str, SxStr, SxChar)):
+                return r
+            raise TypeError("__repr__ returned non-string (type %s)" % type(r).__name__)
+    if isinstance(x, (list, tuple)) and has_sym(x):
+        parts = []
+        for v in x:
+            if parts:
+                parts.extend(", ")
+            parts.extend(_items(sx_repr(v)))
+        br = "[]" if isinstance(x, list) else "()"
+        return _mkstr([br[0]] + parts + ([","] if isinstance(x, tuple) and len(x) == 1 else []) + [br[1]])
+    return repr(x)
+
+
+_IDS = {}
+
+
+def sx_id(x):
+    """id(obj): a fresh symbolic integer per object.  Objects whose lifetimes do not overlap may receive the same
+    address from the allocator, so nothing is assumed about distinctness; a conclusion that needs two ids to
+    coincide is confirmed (or not) by the native replay."""
+    if isinstance(x, (int, str, bytes, bool, type(None), type)) or is_sym(x):
+        return id(x)
+    ent = _IDS.get(id(x))
+    if ent is None:
+        v = z3.BitVec("id!%d" % len(_IDS), 48)
+        ent = _IDS[id(x)] = (x, SxInt.unsigned(v))
+    return ent[1]
+
+
 def sx_hex(x):
     if isinstance(x, SxInt):
         if bool(x < 0):
@@ -684,6 +721,8 @@ def _install_builtin_intercepts():
     register(range, sx_range)
     register(int, sx_int)
     register(str, sx_str)
+    register(repr, sx_repr)
+    register(id, sx_id)
     register(hex, sx_hex)
     register(bin, sx_bin)
     register(ord, sx_ord)
@@ -1002,6 +1041,7 @@ def _snap_obj(v, seen):
 
 def reset_path_state():
     _SIDE.clear()
+    _IDS.clear()
     for st in _MEMOS:
         st.clear()
     for obj, cp in _SNAP:
